@@ -179,12 +179,14 @@ def run_debouncer(b: Batch, cfg, instr=None, hold_plan=None):
         trets = {id(e): (tr if tr is not None else tc) for e, tc, tr in handled}
         # first event: the time it was handed over at the latest (call stamp); last event: when handle_event() had returned
         # (under load the helper thread may get to the call late: the debouncer cannot have seen the event before that)
-        first, last = tcs[id(x["events"][0])], trets[id(x["events"][-1])]
+        # an event reaches the debouncer at some moment between the call of handle_event() and its return; only the call stamp
+        # is a sound lower bound (under load the helper thread may be descheduled for long after the call has done its work)
+        first, last = tcs[id(x["events"][0])], tcs[id(x["events"][-1])]
         b.count("debounce_timings_judged")
         if x["t"] - first < interval - 0.002:
             b.violation("debouncer-too-early", f"batch delivered {x['t'] - first:.4f} s after its first event (interval {interval})", witness=wit, replay_spec=rs)
-        elif 0.004 < x["t"] - last < interval - 0.002:
-            b.violation("debouncer-too-early", f"batch delivered {x['t'] - last:.4f} s after its last event (interval {interval})", witness=wit, replay_spec=rs)
+        elif x["t"] - last < interval - 0.002:
+            b.violation("debouncer-too-early", f"batch delivered {x['t'] - last:.4f} s after handle_event() was called for its last event (interval {interval})", witness=wit, replay_spec=rs)
     if any(len(x["events"]) >= 2 for x in batches) or reached:
         b.nontrivial(["deb", cfg, hold_plan])
     if len(b.samples) < 1 and len(batches) >= 1:
@@ -530,6 +532,7 @@ def instr_tricks(seed):
     from watchdog.utils.process_watcher import ProcessWatcher
 
     ins = Instr(seed=seed)
+    ins.watch(threading.Condition.wait)
     ins.watch(EventDebouncer.run, AutoRestartTrick._stop_process, AutoRestartTrick._restart_process, AutoRestartTrick._start_process, ProcessWatcher.run)
     return ins
 
@@ -551,7 +554,7 @@ def discover(inst, seed):
         run_autorestart(b, inst, c)
     deb_pts, auto_pts = set(), set()
     for role, qn, line in ins.points:
-        if role == "EventDebouncer" and qn == "EventDebouncer.run":
+        if role == "EventDebouncer" and qn in ("EventDebouncer.run", "Condition.wait"):
             deb_pts.add((role, qn, line))
         elif qn.startswith("AutoRestartTrick.") and role in ("wdv-events", "EventDebouncer", "ProcessWatcher"):
             auto_pts.add((role, qn, line))
@@ -627,6 +630,13 @@ def run_batch(spec):
                     allp = [("deb", p) for p in deb_pts] + [("auto", p) for p in auto_pts]
                     for i, (what, pt) in enumerate(allp):
                         if i % spec["of"] != spec["j"] or b.expired():
+                            continue
+                        if what == "deb" and pt[1] == "Condition.wait":
+                            # the debouncer is parked INSIDE Condition.wait on its way out of a timed wait that has just timed
+                            # out (2nd pass of that line); an event arrives exactly then; the quiet period must start again
+                            cfg = {"interval": 0.6, "gaps": [0.0, 0.65]}
+                            hp = {"qualname": pt[1], "line": pt[2], "nth": 2, "stop_while_held": False}
+                            run_debouncer(b, cfg, ins, hp)
                             continue
                         if what == "deb":
                             for variant in range(3):
